@@ -532,13 +532,24 @@ Proof.
   change (sumZ (x :: a)) with (x + sumZ a). lia.
 Qed.
 
-Lemma wt_list_app : forall p l l' k j, wt_list p (l ++ l') k j = wt_list p l k j + wt_list p l' k j.
-Proof. intros. unfold wt_list. rewrite map_app, sumZ_app. reflexivity. Qed.
+(* weights selected by an arbitrary predicate on identities: [wt] (one identity) and [total]
+   (all of them) are instances *)
+Definition wsel (p : profile) (l : list sample) (pr : sample_ident -> bool) (j : nat) : Z :=
+  sumZ (map (fun s => if pr (sample_ident_of p s) then nth j (s_val s) 0 else 0) l).
+Definition ws (p : profile) (pr : sample_ident -> bool) (j : nat) : Z := wsel p (p_sample p) pr j.
 
-Lemma wt_list_ext : forall st st' l k j,
-  ok st -> ext st st' -> Forall (sample_refs_ok st) l -> wt_list st' l k j = wt_list st l k j.
+Lemma wt_ws : forall p k j, wt p k j = ws p (fun i => sid_eqb i k) j.
+Proof. reflexivity. Qed.
+Lemma total_ws : forall p j, total p j = ws p (fun _ => true) j.
+Proof. reflexivity. Qed.
+
+Lemma wsel_app : forall p l l' pr j, wsel p (l ++ l') pr j = wsel p l pr j + wsel p l' pr j.
+Proof. intros. unfold wsel. rewrite map_app, sumZ_app. reflexivity. Qed.
+
+Lemma wsel_ext : forall st st' l pr j,
+  ok st -> ext st st' -> Forall (sample_refs_ok st) l -> wsel st' l pr j = wsel st l pr j.
 Proof.
-  intros st st' l k j Hok He H. unfold wt_list. f_equal. apply map_ext_in. intros s Hs.
+  intros st st' l pr j Hok He H. unfold wsel. f_equal. apply map_ext_in. intros s Hs.
   rewrite Forall_forall in H. rewrite (sample_ident_ext st st'); auto.
 Qed.
 
@@ -548,18 +559,18 @@ Proof. reflexivity. Qed.
 Lemma eq64_by : forall a b k, a = b + k * two64 -> eq64 a b.
 Proof. intros a b k H. apply eq64_iff. exists k. exact H. Qed.
 
-Lemma wt_list_upd_first : forall p hit v k0 k j l,
+Lemma wsel_upd_first : forall p hit v k0 pr j l,
   (forall ss, In ss l -> hit ss = true -> sample_ident_of p ss = k0) ->
-  eq64 (wt_list p (upd_first hit (add_to_sample v) l) k j)
-       (wt_list p l k j + (if existsb hit l then (if sid_eqb k0 k then nth j v 0 else 0) else 0)).
+  eq64 (wsel p (upd_first hit (add_to_sample v) l) pr j)
+       (wsel p l pr j + (if existsb hit l then (if pr k0 then nth j v 0 else 0) else 0)).
 Proof.
-  intros p hit v k0 k j. induction l as [|x r IH]; intros Hhit.
+  intros p hit v k0 pr j. induction l as [|x r IH]; intros Hhit.
   - cbn. apply eq64_refl.
-  - cbn [upd_first existsb]. destruct (hit x) eqn:E; cbn [orb]; unfold wt_list in *; cbn [map];
+  - cbn [upd_first existsb]. destruct (hit x) eqn:E; cbn [orb]; unfold wsel in *; cbn [map];
       rewrite !sumZ_cons.
     + change (sample_ident_of p (add_to_sample v x)) with (sample_ident_of p x).
       rewrite (Hhit x (or_introl eq_refl) E).
-      destruct (sid_eqb k0 k).
+      destruct (pr k0).
       * cbn [s_val add_to_sample].
         pose proof (nth_add_vals (s_val x) v j) as Hn. apply eq64_iff in Hn. destruct Hn as [q Hq].
         apply (eq64_by _ _ q). lia.
@@ -578,13 +589,13 @@ Qed.
 Lemma ext_with_sample : forall st x, ext st (with_sample st x).
 Proof. intros st x. split; cbn; exists []; rewrite app_nil_r; reflexivity. Qed.
 
-Definition contrib (src : profile) (s : sample) (k : sample_ident) (j : nat) : Z :=
-  if sid_eqb (sample_ident_of src s) k then nth j (s_val s) 0 else 0.
+Definition contrib (src : profile) (s : sample) (pr : sample_ident -> bool) (j : nat) : Z :=
+  if pr (sample_ident_of src s) then nth j (s_val s) 0 else 0.
 
 Lemma map_sample_spec : forall st src s,
   ok st ->
   ok (map_sample st src s) /\ ext st (map_sample st src s) /\
-  forall k j, eq64 (wt (map_sample st src s) k j) (wt st k j + contrib src s k j).
+  forall pr j, eq64 (ws (map_sample st src s) pr j) (ws st pr j + contrib src s pr j).
 Proof.
   intros st src s Hok. unfold map_sample.
   destruct (map_locs st src (s_loc s)) as [st1 locs] eqn:E.
@@ -595,18 +606,18 @@ Proof.
     rewrite A5. reflexivity. }
   assert (Hsm : Forall (sample_refs_ok st1) (p_sample st1)).
   { rewrite A3. eapply Forall_impl; [|apply (ok_smp _ Hok)]. intros x Hx. eapply sample_refs_ok_ext; eauto. }
-  assert (Hwt : forall k j, wt_list st1 (p_sample st1) k j = wt st k j).
-  { intros k j. rewrite A3. unfold wt. apply wt_list_ext; auto. apply (ok_smp _ Hok). }
+  assert (Hwt : forall pr j, wsel st1 (p_sample st1) pr j = ws st pr j).
+  { intros pr j. rewrite A3. unfold ws. apply wsel_ext; auto. apply (ok_smp _ Hok). }
   destruct (existsb hit (p_sample st1)) eqn:Ex.
   - split; [|split].
     + split; cbn; try apply A1.
       apply Forall_upd_first; [|exact Hsm]. intros x Hx. exact Hx.
     + eapply ext_trans; [exact A2 | apply ext_with_sample].
-    + intros k j. unfold wt. cbn [p_sample with_sample].
-      change (wt_list (with_sample st1 (upd_first hit (add_to_sample (s_val s)) (p_sample st1))))
-        with (wt_list st1).
+    + intros pr j. unfold ws. cbn [p_sample with_sample].
+      change (wsel (with_sample st1 (upd_first hit (add_to_sample (s_val s)) (p_sample st1))))
+        with (wsel st1).
       eapply eq64_trans.
-      * apply (wt_list_upd_first st1 hit (s_val s) (sample_ident_of src s)).
+      * apply (wsel_upd_first st1 hit (s_val s) (sample_ident_of src s)).
         intros ss _ Hh. unfold hit in Hh. apply skey_eqb_spec in Hh.
         rewrite (skey_ident st1 ss locs s Hh). exact Hk0.
       * rewrite Ex, Hwt. unfold contrib. apply eq64_refl.
@@ -614,40 +625,40 @@ Proof.
     + split; cbn; try apply A1.
       apply Forall_app. split; [exact Hsm|]. constructor; [|constructor]. exact A4.
     + eapply ext_trans; [exact A2 | apply ext_with_sample].
-    + intros k j. unfold wt. cbn [p_sample with_sample].
-      change (wt_list (with_sample st1 (p_sample st1 ++ [new_sample locs s]))) with (wt_list st1).
-      rewrite wt_list_app, Hwt. unfold wt_list at 1. cbn [map sumZ fold_right].
+    + intros pr j. unfold ws. cbn [p_sample with_sample].
+      change (wsel (with_sample st1 (p_sample st1 ++ [new_sample locs s]))) with (wsel st1).
+      rewrite wsel_app, Hwt. unfold wsel at 1. cbn [map sumZ fold_right].
       rewrite Hk0. unfold contrib. cbn [s_val new_sample]. rewrite Z.add_0_r. apply eq64_refl.
 Qed.
 
 Lemma merge_sample_spec : forall st src s,
   ok st ->
   ok (merge_sample src st s) /\ ext st (merge_sample src st s) /\
-  forall k j, eq64 (wt (merge_sample src st s) k j) (wt st k j + contrib src s k j).
+  forall pr j, eq64 (ws (merge_sample src st s) pr j) (ws st pr j + contrib src s pr j).
 Proof.
   intros st src s Hok. unfold merge_sample. destruct (is_zero_sample s) eqn:E.
-  - split; [exact Hok|]. split; [apply ext_refl|]. intros k j. unfold contrib.
-    rewrite (zero_sample_nth s j E). destruct (sid_eqb _ _); rewrite Z.add_0_r; apply eq64_refl.
+  - split; [exact Hok|]. split; [apply ext_refl|]. intros pr j. unfold contrib.
+    rewrite (zero_sample_nth s j E). destruct (pr _); rewrite Z.add_0_r; apply eq64_refl.
   - apply map_sample_spec. exact Hok.
 Qed.
 
-Lemma wt_list_contrib : forall src l k j, wt_list src l k j = sumZ (map (fun s => contrib src s k j) l).
+Lemma wsel_contrib : forall src l pr j, wsel src l pr j = sumZ (map (fun s => contrib src s pr j) l).
 Proof. reflexivity. Qed.
 
 Lemma merge_samples_spec : forall src l st,
   ok st ->
   ok (fold_left (merge_sample src) l st) /\ ext st (fold_left (merge_sample src) l st) /\
-  forall k j, eq64 (wt (fold_left (merge_sample src) l st) k j) (wt st k j + wt_list src l k j).
+  forall pr j, eq64 (ws (fold_left (merge_sample src) l st) pr j) (ws st pr j + wsel src l pr j).
 Proof.
   intros src. induction l as [|s r IH]; intros st Hok; cbn [fold_left].
-  - split; [exact Hok|]. split; [apply ext_refl|]. intros k j. unfold wt_list. cbn.
+  - split; [exact Hok|]. split; [apply ext_refl|]. intros pr j. unfold wsel. cbn.
     rewrite Z.add_0_r. apply eq64_refl.
   - destruct (merge_sample_spec st src s Hok) as (A1 & A2 & A3).
     destruct (IH _ A1) as (B1 & B2 & B3).
-    split; [exact B1|]. split; [eapply ext_trans; eauto|]. intros k j.
-    pose proof (B3 k j) as H1. pose proof (A3 k j) as H2.
+    split; [exact B1|]. split; [eapply ext_trans; eauto|]. intros pr j.
+    pose proof (B3 pr j) as H1. pose proof (A3 pr j) as H2.
     apply eq64_iff in H1. destruct H1 as [q1 H1]. apply eq64_iff in H2. destruct H2 as [q2 H2].
-    rewrite !wt_list_contrib in *. cbn [map]. rewrite sumZ_cons.
+    rewrite !wsel_contrib in *. cbn [map]. rewrite sumZ_cons.
     apply (eq64_by _ _ (q1 + q2)). lia.
 Qed.
 
@@ -667,28 +678,28 @@ Qed.
 Lemma merge_src_spec : forall st src,
   ok st ->
   ok (merge_src st src) /\ ext st (merge_src st src) /\
-  forall k j, eq64 (wt (merge_src st src) k j) (wt st k j + wt src k j).
+  forall pr j, eq64 (ws (merge_src st src) pr j) (ws st pr j + ws src pr j).
 Proof.
   intros st src Hok. unfold merge_src.
   destruct (eager_first_mapping_spec st src Hok) as (A1 & A2 & A3).
   destruct (merge_samples_spec src (p_sample src) _ A1) as (B1 & B2 & B3).
-  split; [exact B1|]. split; [eapply ext_trans; eauto|]. intros k j.
-  assert (Hw : wt (eager_first_mapping st src) k j = wt st k j).
-  { unfold wt. rewrite A3. apply wt_list_ext; auto. apply (ok_smp _ Hok). }
-  pose proof (B3 k j) as H1. rewrite Hw in H1. exact H1.
+  split; [exact B1|]. split; [eapply ext_trans; eauto|]. intros pr j.
+  assert (Hw : ws (eager_first_mapping st src) pr j = ws st pr j).
+  { unfold ws. rewrite A3. apply wsel_ext; auto. apply (ok_smp _ Hok). }
+  pose proof (B3 pr j) as H1. rewrite Hw in H1. exact H1.
 Qed.
 
 Lemma merge_srcs_spec : forall srcs st,
   ok st ->
   ok (fold_left merge_src srcs st) /\ ext st (fold_left merge_src srcs st) /\
-  forall k j, eq64 (wt (fold_left merge_src srcs st) k j) (wt st k j + sumZ (map (fun p => wt p k j) srcs)).
+  forall pr j, eq64 (ws (fold_left merge_src srcs st) pr j) (ws st pr j + sumZ (map (fun p => ws p pr j) srcs)).
 Proof.
   induction srcs as [|p r IH]; intros st Hok; cbn [fold_left].
-  - split; [exact Hok|]. split; [apply ext_refl|]. intros k j. cbn. rewrite Z.add_0_r. apply eq64_refl.
+  - split; [exact Hok|]. split; [apply ext_refl|]. intros pr j. cbn. rewrite Z.add_0_r. apply eq64_refl.
   - destruct (merge_src_spec st p Hok) as (A1 & A2 & A3).
     destruct (IH _ A1) as (B1 & B2 & B3).
-    split; [exact B1|]. split; [eapply ext_trans; eauto|]. intros k j.
-    pose proof (B3 k j) as H1. pose proof (A3 k j) as H2.
+    split; [exact B1|]. split; [eapply ext_trans; eauto|]. intros pr j.
+    pose proof (B3 pr j) as H1. pose proof (A3 pr j) as H2.
     apply eq64_iff in H1. destruct H1 as [q1 H1]. apply eq64_iff in H2. destruct H2 as [q2 H2].
     cbn [map]. rewrite sumZ_cons.
     apply (eq64_by _ _ (q1 + q2)). lia.
@@ -699,29 +710,373 @@ Proof.
   intros. split; cbn; try apply ids_from_nil; constructor.
 Qed.
 
-Theorem merge_pass_conserves : forall ps q,
-  merge_pass ps = MOk q -> forall k j, eq64 (wt q k j) (sumZ (map (fun p => wt p k j) ps)).
+Lemma merge_pass_ws : forall ps q,
+  merge_pass ps = MOk q -> forall pr j, eq64 (ws q pr j) (sumZ (map (fun p => ws p pr j) ps)).
 Proof.
-  intros ps q H k j. unfold merge_pass in H. destruct ps as [|p0 rest]; [discriminate|].
+  intros ps q H pr j. unfold merge_pass in H. destruct ps as [|p0 rest]; [discriminate|].
   destruct (compat_all p0 rest); try discriminate. inversion H; subst. clear H.
   destruct (merge_srcs_spec (p0 :: rest) _ (ok_combine_headers p0 (p0 :: rest))) as (_ & _ & A).
-  eapply eq64_trans; [apply A|]. unfold wt at 1. cbn [p_sample combine_headers wt_list map sumZ fold_right].
-  apply eq64_refl.
+  eapply eq64_trans; [apply A|]. apply eq64_refl.
 Qed.
 
+Lemma merge_fuel_ws : forall n ps q,
+  merge_fuel n ps = MOk q -> forall pr j, eq64 (ws q pr j) (sumZ (map (fun p => ws p pr j) ps)).
+Proof.
+  induction n as [|n IH]; intros ps q H pr j; cbn [merge_fuel] in H.
+  - destruct (merge_pass ps) as [p| | |] eqn:E; try discriminate.
+    destruct (existsb is_zero_sample (p_sample p)); [discriminate|]. inversion H; subst.
+    eapply merge_pass_ws; eauto.
+  - destruct (merge_pass ps) as [p| | |] eqn:E; try discriminate.
+    destruct (existsb is_zero_sample (p_sample p)).
+    + eapply eq64_trans; [eapply IH; eauto|]. cbn [map]. rewrite sumZ_cons. cbn [sumZ fold_right].
+      rewrite Z.add_0_r. eapply merge_pass_ws; eauto.
+    + inversion H; subst. eapply merge_pass_ws; eauto.
+Qed.
+
+(* C03, conservation: for every (stack, label set) identity and every sample-type column, the
+   weight in the result is the int64 sum of the weights in the inputs *)
 Theorem merge_conserves_lemma : forall ps q,
   merge ps = MOk q -> forall k j, eq64 (wt q k j) (sumZ (map (fun p => wt p k j) ps)).
+Proof. intros ps q H k j. exact (merge_fuel_ws 2 ps q H (fun i => sid_eqb i k) j). Qed.
+
+Theorem totals_conserved_lemma : forall ps q,
+  merge ps = MOk q -> forall j, eq64 (total q j) (sumZ (map (fun p => total p j) ps)).
+Proof. intros ps q H j. exact (merge_fuel_ws 2 ps q H (fun _ => true) j). Qed.
+
+(* the result never contains an all-zero sample *)
+Theorem merge_no_zero_lemma : forall ps q,
+  merge ps = MOk q -> forall s, In s (p_sample q) -> is_zero_sample s = false.
 Proof.
-  assert (G : forall n ps q, merge_fuel n ps = MOk q ->
-                forall k j, eq64 (wt q k j) (sumZ (map (fun p => wt p k j) ps))).
-  { induction n as [|n IH]; intros ps q H k j; cbn [merge_fuel] in H.
-    - destruct (merge_pass ps) as [p| | |] eqn:E; try discriminate.
-      destruct (existsb is_zero_sample (p_sample p)); [discriminate|]. inversion H; subst.
-      eapply merge_pass_conserves; eauto.
-    - destruct (merge_pass ps) as [p| | |] eqn:E; try discriminate.
-      destruct (existsb is_zero_sample (p_sample p)).
-      + eapply eq64_trans; [eapply IH; eauto|]. cbn [map sumZ fold_right]. rewrite Z.add_0_r.
-        eapply merge_pass_conserves; eauto.
-      + inversion H; subst. eapply merge_pass_conserves; eauto. }
-  intros ps q H. eapply G. exact H.
+  assert (G : forall n ps q, merge_fuel n ps = MOk q -> existsb is_zero_sample (p_sample q) = false).
+  { induction n as [|n IH]; intros ps q H; cbn [merge_fuel] in H;
+      destruct (merge_pass ps) as [p| | |] eqn:E; try discriminate;
+      destruct (existsb is_zero_sample (p_sample p)) eqn:Z; try discriminate.
+    - inversion H; subst. exact Z.
+    - eapply IH; eauto.
+    - inversion H; subst. exact Z. }
+  intros ps q H s Hin. specialize (G 2%nat ps q H).
+  destruct (is_zero_sample s) eqn:E; [|reflexivity].
+  assert (existsb is_zero_sample (p_sample q) = true) by (apply existsb_exists; eauto). congruence.
+Qed.
+
+(* order independence of the weights *)
+Lemma sumZ_perm : forall a b, Permutation a b -> sumZ a = sumZ b.
+Proof.
+  intros a b H. induction H as [| x l l' _ IH | x y l | l l' l'' _ IH1 _ IH2].
+  - reflexivity.
+  - rewrite !sumZ_cons, IH. reflexivity.
+  - rewrite !sumZ_cons. lia.
+  - congruence.
+Qed.
+
+Theorem merge_perm_lemma : forall ps ps' q q',
+  Permutation ps ps' -> merge ps = MOk q -> merge ps' = MOk q' ->
+  forall k j, eq64 (wt q k j) (wt q' k j).
+Proof.
+  intros ps ps' q q' Hp H H' k j.
+  eapply eq64_trans; [eapply merge_conserves_lemma; eauto|].
+  apply eq64_sym. eapply eq64_trans; [eapply merge_conserves_lemma; eauto|].
+  rewrite (sumZ_perm _ _ (Permutation_map (fun p => wt p k j) Hp)). apply eq64_refl.
+Qed.
+
+(* ------------------------------------------------------------------ the header is untouched by the
+   entity/sample phase *)
+Definition hdr (p : profile) :=
+  (p_sampletype p, p_defaultsampletype p, p_comments p, p_docurl p, p_dropframes p, p_keepframes p,
+   p_timenanos p, p_durationnanos p, p_periodtype p, p_period p).
+
+Lemma hdr_map_function : forall st src fid st' g, map_function st src fid = (st', g) -> hdr st' = hdr st.
+Proof.
+  intros st src fid st' g H. unfold map_function, map_function_rec in H.
+  destruct (lookup_fn src fid); [|inversion H; reflexivity].
+  destruct (find _ _); inversion H; reflexivity.
+Qed.
+
+Lemma hdr_map_mapping_rec : forall st m st' r, map_mapping_rec st m = (st', r) -> hdr st' = hdr st.
+Proof.
+  intros st m st' r H. unfold map_mapping_rec in H. destruct (find _ _); inversion H; reflexivity.
+Qed.
+
+Lemma hdr_map_mapping : forall st src mid st' r, map_mapping st src mid = (st', r) -> hdr st' = hdr st.
+Proof.
+  intros st src mid st' r H. unfold map_mapping in H.
+  destruct (lookup_map src mid); [eapply hdr_map_mapping_rec; eauto | inversion H; reflexivity].
+Qed.
+
+Lemma hdr_map_lines : forall src lns st st' r, map_lines st src lns = (st', r) -> hdr st' = hdr st.
+Proof.
+  intros src. induction lns as [|ln lns IH]; intros st st' r H; cbn [map_lines] in H.
+  - inversion H; reflexivity.
+  - destruct (map_function st src (ln_fn ln)) as [st1 fid] eqn:E1.
+    destruct (map_lines st1 src lns) as [st2 r'] eqn:E2. inversion H; subst.
+    rewrite (IH _ _ _ E2). eapply hdr_map_function; eauto.
+Qed.
+
+Lemma hdr_map_location : forall st src lid st' g, map_location st src lid = (st', g) -> hdr st' = hdr st.
+Proof.
+  intros st src lid st' g H. unfold map_location, map_location_rec in H.
+  destruct (lookup_loc src lid) as [l|]; [|inversion H; reflexivity].
+  destruct (map_mapping st src (l_mapping l)) as [st1 [mid off]] eqn:E1.
+  destruct (map_lines st1 src (l_lines l)) as [st2 lines] eqn:E2.
+  assert (E : hdr st2 = hdr st).
+  { rewrite (hdr_map_lines _ _ _ _ _ E2). eapply hdr_map_mapping; eauto. }
+  destruct (find _ _); inversion H; subst; [exact E | rewrite <- E; reflexivity].
+Qed.
+
+Lemma hdr_map_locs : forall src ids st st' r, map_locs st src ids = (st', r) -> hdr st' = hdr st.
+Proof.
+  intros src. induction ids as [|id ids IH]; intros st st' r H; cbn [map_locs] in H.
+  - inversion H; reflexivity.
+  - destruct (map_location st src id) as [st1 id'] eqn:E1.
+    destruct (map_locs st1 src ids) as [st2 r'] eqn:E2. inversion H; subst.
+    rewrite (IH _ _ _ E2). eapply hdr_map_location; eauto.
+Qed.
+
+Lemma hdr_merge_sample : forall src st s, hdr (merge_sample src st s) = hdr st.
+Proof.
+  intros src st s. unfold merge_sample, map_sample. destruct (is_zero_sample s); [reflexivity|].
+  destruct (map_locs st src (s_loc s)) as [st1 locs] eqn:E.
+  rewrite <- (hdr_map_locs _ _ _ _ _ E). destruct (existsb _ _); reflexivity.
+Qed.
+
+Lemma hdr_merge_src : forall st src, hdr (merge_src st src) = hdr st.
+Proof.
+  intros st src. unfold merge_src.
+  assert (G : forall l st0, hdr (fold_left (merge_sample src) l st0) = hdr st0).
+  { induction l as [|s l IH]; intros st0; cbn [fold_left]; [reflexivity|].
+    rewrite IH. apply hdr_merge_sample. }
+  rewrite G. unfold eager_first_mapping.
+  destruct (p_mapping st); [|reflexivity]. destruct (p_mapping src) as [|m r]; [reflexivity|].
+  destruct (map_mapping_rec st m) as [st1 r1] eqn:E. cbn. eapply hdr_map_mapping_rec; eauto.
+Qed.
+
+Lemma hdr_merge_srcs : forall srcs st, hdr (fold_left merge_src srcs st) = hdr st.
+Proof.
+  induction srcs as [|p r IH]; intros st; cbn [fold_left]; [reflexivity|].
+  rewrite IH. apply hdr_merge_src.
+Qed.
+
+Lemma merge_pass_hdr : forall p0 rest q,
+  merge_pass (p0 :: rest) = MOk q -> hdr q = hdr (combine_headers p0 (p0 :: rest)).
+Proof.
+  intros p0 rest q H. unfold merge_pass in H. destruct (compat_all p0 rest); try discriminate.
+  injection H as <-. apply (hdr_merge_srcs (p0 :: rest)).
+Qed.
+
+(* ------------------------------------------------------------------ header rules *)
+Lemma min_list_nonzero : forall l x, x <> 0 -> Forall (fun y => y <> 0) l -> min_list x l <> 0.
+Proof.
+  induction l as [|y r IH]; intros x Hx H; cbn; [exact Hx|].
+  inversion H; subst. apply IH; [lia | assumption].
+Qed.
+
+Lemma fold_time_nonzero : forall srcs t, t <> 0 ->
+  fold_left step_time srcs t = min_list t (filter (fun x => negb (x =? 0)) (map p_timenanos srcs)).
+Proof.
+  induction srcs as [|s r IH]; intros t Ht; cbn [fold_left map filter]; [reflexivity|].
+  unfold step_time at 2. destruct (p_timenanos s =? 0) eqn:E; cbn [negb andb].
+  - apply IH. exact Ht.
+  - apply Z.eqb_neq in E. cbn [min_list].
+    replace (t =? 0) with false by (symmetry; apply Z.eqb_neq; exact Ht). cbn [orb].
+    destruct (p_timenanos s <? t) eqn:L.
+    + apply Z.ltb_lt in L. rewrite IH by exact E. f_equal. lia.
+    + apply Z.ltb_ge in L. rewrite IH by exact Ht. f_equal. lia.
+Qed.
+
+Theorem header_time_lemma : forall srcs,
+  fold_left step_time srcs 0 = spec_time (map p_timenanos srcs).
+Proof.
+  unfold spec_time. induction srcs as [|s r IH]; cbn [fold_left map filter]; [reflexivity|].
+  unfold step_time at 2. destruct (p_timenanos s =? 0) eqn:E; cbn [negb andb orb].
+  - exact IH.
+  - apply Z.eqb_neq in E. rewrite Z.eqb_refl. cbn [orb]. apply fold_time_nonzero. exact E.
+Qed.
+
+Lemma wrap_i64_idem : forall x, wrap_i64 (wrap_i64 x) = wrap_i64 x.
+Proof. intros x. exact (eq64_wrap x). Qed.
+
+Lemma fold_duration : forall srcs d, wrap_i64 d = d ->
+  fold_left step_duration srcs d = wrap_i64 (d + sumZ (map p_durationnanos srcs)).
+Proof.
+  induction srcs as [|s r IH]; intros d Hd; cbn [fold_left map].
+  - cbn. rewrite Z.add_0_r. symmetry. exact Hd.
+  - rewrite IH by apply wrap_i64_idem. rewrite sumZ_cons. unfold step_duration.
+    change (wrap_i64 (wrap_i64 (d + p_durationnanos s) + sumZ (map p_durationnanos r)) =
+            wrap_i64 (d + (p_durationnanos s + sumZ (map p_durationnanos r))))
+      with (eq64 (wrap_i64 (d + p_durationnanos s) + sumZ (map p_durationnanos r))
+                 (d + (p_durationnanos s + sumZ (map p_durationnanos r)))).
+    pose proof (eq64_wrap (d + p_durationnanos s)) as H. apply eq64_iff in H. destruct H as [q Hq].
+    apply (eq64_by _ _ q). lia.
+Qed.
+
+Theorem header_duration_lemma : forall srcs,
+  fold_left step_duration srcs 0 = spec_duration (map p_durationnanos srcs).
+Proof. intros srcs. rewrite fold_duration by reflexivity. reflexivity. Qed.
+
+Lemma fold_period : forall srcs pd, 0 <= pd -> Forall (fun p => 0 <= p_period p) srcs ->
+  fold_left step_period srcs pd = Z.max pd (spec_period (map p_period srcs)).
+Proof.
+  unfold spec_period. induction srcs as [|s r IH]; intros pd Hpd H; cbn [fold_left map fold_right].
+  - lia.
+  - inversion H as [|? ? Hs Hr]; subst. unfold step_period at 2.
+    destruct (pd =? 0) eqn:E; cbn [orb].
+    + apply Z.eqb_eq in E. subst. rewrite IH by assumption. lia.
+    + destruct (pd <? p_period s) eqn:L.
+      * apply Z.ltb_lt in L. rewrite IH by assumption. lia.
+      * apply Z.ltb_ge in L. rewrite IH by assumption. lia.
+Qed.
+
+Theorem header_period_lemma : forall srcs, Forall (fun p => 0 <= p_period p) srcs ->
+  fold_left step_period srcs 0 = spec_period (map p_period srcs).
+Proof.
+  intros srcs H. rewrite fold_period by (auto; lia).
+  assert (0 <= spec_period (map p_period srcs)).
+  { unfold spec_period. clear H. induction srcs; cbn; lia. }
+  lia.
+Qed.
+
+(* comments: de-duplicated union in order of first occurrence *)
+Definition smem (y : string) (acc : list string) : bool := existsb (String.eqb y) acc.
+
+Lemma filter_filter : forall {A} (P Q : A -> bool) l,
+  filter P (filter Q l) = filter (fun y => P y && Q y) l.
+Proof.
+  intros A P Q. induction l as [|x r IH]; cbn; [reflexivity|].
+  destruct (Q x) eqn:EQ; cbn; rewrite ?andb_true_r, ?andb_false_r; destruct (P x); cbn; rewrite ?EQ, IH; reflexivity.
+Qed.
+
+Lemma fold_add_comment : forall l acc,
+  fold_left add_comment l acc = acc ++ filter (fun y => negb (smem y acc)) (dedup l).
+Proof.
+  induction l as [|x r IH]; intros acc; cbn [fold_left dedup filter].
+  - rewrite app_nil_r. reflexivity.
+  - unfold add_comment at 2. fold (smem x acc). destruct (smem x acc) eqn:E; cbn [negb].
+    + rewrite IH. f_equal. rewrite filter_filter. apply filter_ext. intros y.
+      destruct (smem y acc) eqn:Ey; cbn [negb andb]; [reflexivity|].
+      destruct (String.eqb y x) eqn:Eyx; [|reflexivity].
+      apply String.eqb_eq in Eyx. subst. congruence.
+    + rewrite IH, <- app_assoc. cbn [app]. f_equal. f_equal. rewrite filter_filter.
+      apply filter_ext. intros y. unfold smem. rewrite existsb_app. cbn [existsb].
+      rewrite orb_false_r, negb_orb. reflexivity.
+Qed.
+
+Lemma fold_step_comments : forall srcs acc,
+  fold_left step_comments srcs acc = fold_left add_comment (List.concat (map p_comments srcs)) acc.
+Proof.
+  induction srcs as [|s r IH]; intros acc; cbn [fold_left map List.concat]; [reflexivity|].
+  rewrite fold_left_app. apply IH.
+Qed.
+
+Lemma filter_all : forall {A} (l : list A), filter (fun _ => true) l = l.
+Proof. induction l as [|x r IH]; cbn; [reflexivity | rewrite IH; reflexivity]. Qed.
+
+Theorem header_comments_lemma : forall srcs,
+  fold_left step_comments srcs [] = spec_comments (map p_comments srcs).
+Proof.
+  intros srcs. rewrite fold_step_comments, fold_add_comment. cbn [app]. unfold spec_comments.
+  apply filter_all.
+Qed.
+
+Lemma dedup_in : forall l x, In x (dedup l) <-> In x l.
+Proof.
+  induction l as [|y r IH]; intros x; cbn [dedup]; [tauto|]. cbn [In]. rewrite filter_In, IH.
+  destruct (String.eqb_spec x y) as [->|N]; cbn; intuition congruence.
+Qed.
+
+Lemma dedup_nodup : forall l, NoDup (dedup l).
+Proof.
+  induction l as [|y r IH]; cbn [dedup]; constructor.
+  - rewrite filter_In. intros [_ H]. rewrite String.eqb_refl in H. discriminate.
+  - apply NoDup_filter. exact IH.
+Qed.
+
+Lemma dedup_id : forall l, NoDup l -> dedup l = l.
+Proof.
+  induction l as [|y r IH]; intros H; cbn [dedup]; [reflexivity|].
+  inversion H as [|? ? Hn Hr]; subst. rewrite IH by exact Hr. f_equal.
+  rewrite <- (filter_all r) at 2. apply filter_ext_in. intros a Ha.
+  destruct (String.eqb_spec a y) as [->|N]; [contradiction | reflexivity].
+Qed.
+
+(* first non-empty string *)
+Theorem header_first_nonempty_lemma : forall (get : profile -> string) srcs,
+  fold_left (step_first_nonempty get) srcs "" = first_nonempty (map get srcs).
+Proof.
+  intros get. unfold first_nonempty.
+  assert (G : forall srcs acc, acc <> ""%string -> fold_left (step_first_nonempty get) srcs acc = acc).
+  { induction srcs as [|s r IH]; intros acc Ha; cbn [fold_left]; [reflexivity|].
+    unfold step_first_nonempty at 2. destruct (String.eqb_spec acc "") as [->|N]; [contradiction|].
+    apply IH. exact N. }
+  induction srcs as [|s r IH]; cbn [fold_left map filter]; [reflexivity|].
+  unfold step_first_nonempty at 2. cbn [String.eqb].
+  destruct (String.eqb_spec (get s) "") as [E|N]; cbn [negb].
+  - rewrite E. exact IH.
+  - apply G. exact N.
+Qed.
+
+(* the re-merge pass leaves the header as it is *)
+Lemma combine_single : forall p,
+  wrap_i64 (p_durationnanos p) = p_durationnanos p -> NoDup (p_comments p) ->
+  hdr (combine_headers p [p]) = hdr p.
+Proof.
+  intros p Hd Hc. unfold hdr, combine_headers. cbn [fold_left p_sampletype p_defaultsampletype p_comments
+    p_docurl p_dropframes p_keepframes p_timenanos p_durationnanos p_periodtype p_period].
+  assert (E1 : step_first_nonempty p_defaultsampletype "" p = p_defaultsampletype p) by reflexivity.
+  assert (E2 : step_first_nonempty p_docurl "" p = p_docurl p) by reflexivity.
+  assert (E3 : step_comments [] p = p_comments p).
+  { unfold step_comments. rewrite fold_add_comment. cbn [app]. rewrite filter_all. apply dedup_id. exact Hc. }
+  assert (E4 : step_time 0 p = p_timenanos p).
+  { unfold step_time. cbn. destruct (p_timenanos p =? 0) eqn:E; cbn; [apply Z.eqb_eq in E; lia | reflexivity]. }
+  assert (E5 : step_duration 0 p = p_durationnanos p) by (unfold step_duration; cbn [Z.add]; exact Hd).
+  assert (E6 : step_period 0 p = p_period p) by reflexivity.
+  rewrite E1, E2, E3, E4, E5, E6. reflexivity.
+Qed.
+
+Lemma hdr_fields_good : forall p0 srcs q,
+  hdr q = hdr (combine_headers p0 srcs) ->
+  wrap_i64 (p_durationnanos q) = p_durationnanos q /\ NoDup (p_comments q).
+Proof.
+  intros p0 srcs q H. unfold hdr in H.
+  pose proof (f_equal (fun t : _ * _ * list string * _ * _ * _ * _ * Z * _ * _ =>
+                         let '(_, _, _, _, _, _, _, d, _, _) := t in d) H) as Hd.
+  pose proof (f_equal (fun t : _ * _ * list string * _ * _ * _ * _ * Z * _ * _ =>
+                         let '(_, _, c, _, _, _, _, _, _, _) := t in c) H) as Hc.
+  cbn in Hd, Hc. split.
+  - rewrite Hd, header_duration_lemma. unfold spec_duration. apply wrap_i64_idem.
+  - rewrite Hc, header_comments_lemma. apply dedup_nodup.
+Qed.
+
+Lemma merge_fuel_hdr : forall n p0 rest q,
+  merge_fuel n (p0 :: rest) = MOk q -> hdr q = hdr (combine_headers p0 (p0 :: rest)).
+Proof.
+  induction n as [|n IH]; intros p0 rest q H; cbn [merge_fuel] in H;
+    destruct (merge_pass (p0 :: rest)) as [p| | |] eqn:E; try discriminate;
+    destruct (existsb is_zero_sample (p_sample p)); try discriminate.
+  - inversion H; subst. eapply merge_pass_hdr; eauto.
+  - pose proof (merge_pass_hdr _ _ _ E) as Hp.
+    rewrite (IH _ _ _ H). destruct (hdr_fields_good _ _ _ Hp) as [Hd Hc].
+    rewrite combine_single by assumption. exact Hp.
+  - inversion H; subst. eapply merge_pass_hdr; eauto.
+Qed.
+
+Theorem merge_headers_lemma : forall p0 rest q,
+  merge (p0 :: rest) = MOk q ->
+  p_timenanos q = spec_time (map p_timenanos (p0 :: rest)) /\
+  p_durationnanos q = spec_duration (map p_durationnanos (p0 :: rest)) /\
+  (Forall (fun p => 0 <= p_period p) (p0 :: rest) -> p_period q = spec_period (map p_period (p0 :: rest))) /\
+  p_comments q = spec_comments (map p_comments (p0 :: rest)) /\
+  p_defaultsampletype q = first_nonempty (map p_defaultsampletype (p0 :: rest)) /\
+  p_docurl q = first_nonempty (map p_docurl (p0 :: rest)) /\
+  p_dropframes q = p_dropframes p0 /\ p_keepframes q = p_keepframes p0 /\
+  p_sampletype q = p_sampletype p0 /\ p_periodtype q = p_periodtype p0.
+Proof.
+  intros p0 rest q H. pose proof (merge_fuel_hdr _ _ _ _ H) as E. unfold hdr in E.
+  inversion E as [[H1 H2 H3 H4 H5 H6 H7 H8 H9 H10]]. clear E.
+  split; [rewrite H7; exact (header_time_lemma (p0 :: rest))|].
+  split; [rewrite H8; exact (header_duration_lemma (p0 :: rest))|].
+  split; [intros Hp; rewrite H10; exact (header_period_lemma (p0 :: rest) Hp)|].
+  split; [rewrite H3; exact (header_comments_lemma (p0 :: rest))|].
+  split; [rewrite H2; exact (header_first_nonempty_lemma p_defaultsampletype (p0 :: rest))|].
+  split; [rewrite H4; exact (header_first_nonempty_lemma p_docurl (p0 :: rest))|].
+  auto.
 Qed.
